@@ -160,6 +160,18 @@ func (c *Conn) Write(p []byte) (int, error) {
 	return n, err
 }
 
+// HeldBytes is the heap the transport itself holds for what was written to it and what is still to be read (capacities, not
+// lengths: a harness that measures what the code under test retains subtracts this).
+func (c *Conn) HeldBytes() int {
+	c.mu.Lock()
+	defer c.mu.Unlock()
+	n := cap(c.Out) + cap(c.in) + 24*cap(c.Writes)
+	for _, w := range c.Writes {
+		n += cap(w)
+	}
+	return n
+}
+
 func (c *Conn) Close() error {
 	c.mu.Lock()
 	c.CloseCount++
